@@ -45,7 +45,8 @@ RULE = ("(A) seeded layouts: a tree of <=3 directory levels, 2-5 config "
         "urldefrag, normalizeURL and urljoin against 4 bases.  "
         "distinct_nontrivial counts distinct (load kind, entry point, cwd "
         "class, top-name features, reference styles, outcome) and (helper, "
-        "input class, expectation kind) signatures.")
+        "input class, expectation kind) signatures."
+        " Scenario 'decoys': include arguments that read like wildcards beside files they would match, and a missing target with namesakes in the working directory and above; a third of the include references are written through %define (whole reference, or leading segments followed by '..').")
 LEVEL_TEXT = ("Every generated layout was loaded through all entry points "
               "and gave the tree the layout denotes, with every resource URL "
               "in file:/// form naming the intended file; the helper "
